@@ -1076,16 +1076,20 @@ LEVEL_TEXT = (
     'Coq theorems over Gallina models of the JSON driver, the Redis driver, the string codec of utils/json.py and the id / '
     'filter translation of the Mongo driver, against an independently written reference record store: successive stable '
     'sorts in reverse key order (with Python\'s reverse=True) equal one stable sort by the lexicographic comparator, for any '
-    'list of total preorders; the JSON driver model produces the reference outputs for every operation sequence (simulation '
-    'invariant), the Redis model does under the codec round-trip hypothesis; json.dumps string escaping is read back by the '
-    'JSON string scanner for every string of Unicode scalar values; Mongo id / filter translations are inverse / homomorphic. '
-    'The models are tied to the code by running random operation sequences over the full JSON value space against the real '
-    'drivers and comparing every output with the models and with the reference store inside coqc.'
+    'list of total preorders (and the value ordering is one); the JSON driver model produces the reference outputs for every '
+    'operation sequence, all five operations, for its own choice of automatic ids, each proved unused (simulation '
+    'invariant); the Redis model does the same for every sequence whose written values lie in a class on which the per-field '
+    'codec round-trips - with the repaired escaping: all strings of Unicode scalar values, no hypothesis left; json.dumps '
+    'string escaping is read back by the JSON string scanner for every such string; Mongo id / filter translations are '
+    'inverse / homomorphic. The models are tied to the code by running random operation sequences over the full JSON value '
+    'space against the real drivers and comparing every output with the models and with the reference store inside coqc.'
 )
 LEVEL_NOTE = (
     'Trusted: Coq kernel incl. vm_compute; the correspondence harness and its generators; fakeredis / mongomock as servers; '
-    'MongoDB query semantics assumed equal to the reference on the generated fragment (not modelled). Contract limits (see '
-    'assumptions): ordering only on fields of one scalar kind, no sort by id against the reference, limits >= 0, non-empty '
-    'update parts. No axioms.'
+    'MongoDB query semantics assumed equal to the reference on the generated fragment (not modelled). The models describe the '
+    'code WITH the proposed repairs fixes/C06-*.diff (the snapshot behaviour is refuted in History/C06Old.v). Contract limits '
+    '(see assumptions): ordering only on fields of one scalar kind present in every record, no sort by id against the '
+    'reference, limits >= 0, update parts do not rewrite id; Redis theorem: iteration in insertion order (any other order is '
+    'checked per query by the oracle), explicit ids not numeric, collection names without colon. No axioms.'
 )
 TECHNIQUE = 'Coq refinement proof (simulation over operation lists) + differential correspondence of models and spec oracle by vm_compute'
